@@ -222,7 +222,7 @@ C13_RANGE = ["c13w_t12_n126", "c13w_t12_n125", "c13w_t12_n124", "c13w_t12_n066",
 
 
 def c13(res, tier, seed):
-    jobs = []
+    jobs, heavy = [], []
     if tier == "quick":
         for h in C13_QUICK:
             jobs += K(h, ("std",), timeout=900)
@@ -231,18 +231,21 @@ def c13(res, tier, seed):
         for h in C13_RANGE:
             jobs += K(h, ("std", "none"), timeout=600)
         for h in ("c13r_t24a", "c13r_t24b"):
-            jobs += K(h, ("std",), timeout=1200)
+            jobs += K(h, ("std",), timeout=1500)
     else:
         for h in C13_QUICK:
             jobs += K(h, ALL, timeout=1800)
-        for h in C13_LONG:
-            jobs += K(h, ("std", "none"), timeout=2700, mem_gb=30)
-        jobs += K("c13_t14_k16", ("none",), timeout=2700, mem_gb=30)
         for h in C13_RANGE:
             jobs += K(h, ALL, timeout=900)
+        # 8-14 GB of resident memory each: a second phase with at most two CBMC processes per configuration
+        for h in C13_LONG:
+            heavy += K(h, ("std", "none"), timeout=2700, mem_gb=30)
+        heavy += K("c13_t14_k16", ("none",), timeout=2700, mem_gb=30)
         for h in C13_WIRED:
-            jobs += K(h, ("std", "none"), timeout=2700, mem_gb=20)
+            heavy += K(h, ("std", "none"), timeout=2700, mem_gb=30)
     run_kani_jobs(res, jobs)
+    if heavy:
+        run_kani_jobs(res, heavy, workers=4)
     res.assumptions += ["range wiring of the variable-length texts (c13w_*): the decoder parse_6bit_ascii is replaced by len_text_stub (same "
                         "end-of-input and capacity rules, one non-padding character per character of the requested range), the payload is all "
                         "ones (every 6-bit group is '?', so that natively the real decoder yields the same length), the payload length is "
